@@ -159,6 +159,48 @@ Theorem C14_counts_consistent :
 Proof. exact written_consistent. Qed.
 Print Assumptions C14_counts_consistent.
 
+(* ---- second pass: datasets with several data variables, containers and fields ---- *)
+
+(* A container is parsed once; every data variable that names it is recorded with it - the
+   container found for variable i does not depend on how many other variables named the same
+   (or another) container before it, nor on what comes after. *)
+Theorem C14_variable_sees_its_container :
+  forall (conts : list gcont) (dvs : list dvar) i d,
+  nth_error dvs i = Some d -> good_dvar conts d ->
+  lookup_geometry i (snd (parse_all_gen true conts dvs)) = Some (d_gid d).
+Proof. exact variable_sees_its_container. Qed.
+Print Assumptions C14_variable_sees_its_container.
+
+(* Reading a dataset with any number of containers and data variables (containers may share
+   their instance, node and part dimensions): every data variable is presented with the cells
+   of the container it names, decoded with that container's own count variables; and in terms
+   of cells: the bounds are the container's cells padded with missing data. *)
+Theorem C14_shared_containers :
+  (forall conts dvs, Forall (good_dvar conts) dvs ->
+     read_dataset conts dvs = Ok (map (own_cells conts) dvs)) /\
+  (forall conts dvs i d c (cs : cells),
+     Forall (good_dvar conts) dvs ->
+     nth_error dvs i = Some d -> nth_error conts (d_gid d) = Some c ->
+     c_g c = container_for cs true None -> c_datas c = [enc_nodes cs] -> wf_cells cs ->
+     exists l, read_dataset conts dvs = Ok l /\ nth_error l i = Some (Some ([pad3 cs], None))).
+Proof. exact (conj read_dataset_own dataset_variable_cells). Qed.
+Print Assumptions C14_shared_containers.
+
+(* Writing several fields to one dataset: node, count and ring variables are shared between
+   fields only when that changes nothing - every field gets exactly the variables it would get
+   if it were written alone (for ANY arrays); hence each field of well-formed cells decodes,
+   by the reader and by the independent decoder, to its own cells, whatever the other fields are. *)
+Theorem C14_fields_written_independently :
+  (forall fs : list wfield, write_fields fs = map (fun f => write (f_a f) (f_ring f)) fs) /\
+  (forall (css : list (cells * nat)) i cs gd,
+     nth_error css i = Some (cs, gd) -> wf_cells cs -> cs <> [] ->
+     exists w, nth_error (write_fields (map field_of_cells css)) i = Some (Ok w) /\
+               accepted (container_of w) = true /\
+               read_bounds (container_of w) (w_nodes w) = pad3 cs /\
+               spec_decode_container (container_of w) (w_nodes w) = Some cs).
+Proof. exact (conj write_fields_independent fields_decode_own_cells). Qed.
+Print Assumptions C14_fields_written_independently.
+
 (* Non-vacuity: concrete cells with parts-per-cell [2,1,1,3] and varying node counts meet the
    hypotheses, and the presented arrays are the expected non-trivial ones. *)
 Theorem C14_decode_example :
